@@ -173,9 +173,16 @@ Fixpoint count_keys (seen : list akey) (l : list op) : nat :=
   | OAdd _ _ a :: l' => if existsb (akey_eqb (canon a)) seen then count_keys seen l' else count_keys (canon a :: seen) l'
   | _ :: l' => count_keys seen l'
   end.
+Fixpoint news_nodup (l : list (Z * nat * ikind * bytes)) : bool :=
+  match l with
+  | [] => true
+  | (_, m, _, name) :: l' => negb (existsb (same_new m name) l') && news_nodup l'
+  end.
+Definition single_views (c : config) (l : list (Z * nat * ikind * bytes)) : bool :=
+  forallb (fun x => let '(_, m, k, name) := x in Nat.eqb (length (find_views (c_views c) m k name)) 1) l.
 Definition case_good (c : config) (ops : list op) : bool :=
   case_wf c ops &&
-  forallb (fun s => negb (ss_dup s) && negb (ss_multi s)) (streams c (timed ops)) &&
+  news_nodup (news (timed ops)) && single_views c (news (timed ops)) &&
   Nat.ltb (S (count_keys [] ops)) kAggregationCardinalityLimit.
 
 (* ------------------------------------------------------------------------------------------------ canonical order *)
